@@ -440,6 +440,9 @@ def check_c05(run: common.Run, drv: common.Driver, rng: random.Random, n_chains:
     replay_corpus_array_skip(run, "C05")
     opts = G.GenOpts(enum_zero_first=True)
     opts.max_fields = 5
+    opts.ext_prob = 0.7
+    opts.scalar_prob = 0.35
+    opts.max_bits = 1500
     for start in range(0, n_chains, 20):
         _check_c05(run, drv, rng, min(20, n_chains - start), n_values, opts)
 
